@@ -313,7 +313,7 @@ def replay_group(g):
             ids = [int(x) for x in np.asarray(inds)[:, 0]]
             if ids != sorted(ids) or len(set(ids)) != len(ids):
                 bad.append(("rotamer/%s/atom-inds-order" % name, {"ids": ids[:50]}))
-            if name == "all_rotamers" and (g["buf"] + n) % 2 == 0:
+            if name == "all_rotamers" and ((g["buf"] + n) % 2 == 0 or g.get("force_featurizer")):
                 # the trajectory-set entry point of CARDS: every trajectory of the set (here: the same table three
                 # times) is assigned with the featurizer's buffer width, whatever the number of workers
                 from enspara.cards.featurizers import RotamerFeaturizer
@@ -634,7 +634,17 @@ def replay(ctx, path):
         w = rec["detail"].get("case")
         if w is None:
             raise core.MachineryError("group record without a case cannot be replayed; re-run the check")
-        bad = replay_group({"buf": rec["group"]["buf"], "n": rec["group"]["n"], "cases": {str(w["b"]): [w]},
+        cases_ = {str(w["b"]): [w]}
+        feat = str(rec["detail"].get("via", "")).startswith("RotamerFeaturizer") or "all_rotamers" in str(rec.get("key", ""))
+        if feat:
+            # all_rotamers / the featurizer need a column of every dihedral type: the other types get a walk that rests
+            # in the middle of basin 0 (60 degrees; psi is stored shifted by 100 degrees)
+            nfr = rec["group"]["n"]
+            for b_, nb_ in ((1, 2), (2, 2), (3, 3)):
+                if str(b_) not in cases_:
+                    cases_[str(b_)] = [{"b": b_, "a": [120] * nfr, "raw": [320] * nfr, "e": [0] * nfr, "i": [0] * nfr,
+                                        "nb": nb_, "w": 0, "buf": rec["group"]["buf"], "h": 0}]
+        bad = replay_group({"buf": rec["group"]["buf"], "n": rec["group"]["n"], "cases": cases_, "force_featurizer": feat,
                             "real_conversion": rec["group"].get("real_conversion", False)})
     else:
         raise core.MachineryError("model-level violation: re-run ./check C20 (%s)" % rec.get("cmd", ""))
